@@ -357,6 +357,77 @@ def run(chk, ctx) -> None:
     chk.floor('C08.index', 9)
 
     _loop_membership(chk, ctx, disc)
+    _applies_to(chk, ctx, disc)
+    _none_default(chk, ctx)
+
+
+PLAYER_QUEUES = ('actor_indices', 'showdown_indices')
+
+
+def _applies_to(chk, ctx, disc) -> None:
+    """an operation that takes an explicit player applies every per-player effect to that
+    (verified) player: a queue of players is shrunk by remove(<that player>), never by a
+    positional pop that would take whoever happens to be first"""
+    ms = ctx.state.methods
+    n = 0
+    for op, (v, q) in disc.items():
+        of = ms[op]
+        if 'player_index' not in of.params:
+            continue
+        n += 1
+        bad = None
+        for p in ctx.paths(of):
+            who = None
+            for name, val in p.env.items():
+                pass
+            for e in p.writes():
+                root = T.root_self_attr(e.term)
+                if root in PLAYER_QUEUES:
+                    if e.op in ('call:pop', 'call:popleft', 'call:clear'):
+                        bad = (e, f'{root} is shrunk positionally ({e.op[5:]}) although the operation names its player explicitly')
+                    elif e.op == 'call:remove':
+                        arg = _strip_verified(e.value[1][0], v) if e.value and e.value[1] else None
+                        if arg is None or not T.mentions(arg, lambda s: s == ('verified',)):
+                            bad = (e, f'{root}.remove(...) does not remove the verified player')
+            for c in p.calls():
+                if c.value == ('self', '_pop_actor_index'):
+                    bad = (c, 'the head of the actor queue is popped although the operation names its player explicitly')
+        chk.ob('C08.applies_to', f'State.{op}', bad is None, ctx.loc(of, bad[0].node) if bad else of.loc,
+               'the player an explicit index refers to is the player the operation is applied to', got=bad[1] if bad else 'verified player throughout')
+    chk.floor('C08.applies_to', 7)
+
+
+def _none_default(chk, ctx) -> None:
+    """an optional argument for which 0 / () is a legal value is tested with `is None`, never by truthiness"""
+    ms = ctx.state.methods
+    n = 0
+    for name, fi in ms.items():
+        a = fi.node.args
+        opt = []
+        for arg, dflt in list(zip(reversed(a.posonlyargs + a.args), reversed(a.defaults))) + list(zip(a.kwonlyargs, a.kw_defaults)):
+            if dflt is not None and isinstance(dflt, ast.Constant) and dflt.value is None and arg.annotation is not None \
+                    and 'int' in ast.unparse(arg.annotation):
+                opt.append(arg.arg)
+        if not opt:
+            continue
+        bad = []
+        rebound = set()
+        for node in ast.walk(fi.node):
+            tests = []
+            if isinstance(node, (ast.If, ast.While, ast.IfExp, ast.Assert)):
+                tests.append(node.test)
+            if isinstance(node, ast.BoolOp):
+                tests.extend(node.values)
+            if isinstance(node, ast.UnaryOp) and isinstance(node.op, ast.Not):
+                tests.append(node.operand)
+            for t in tests:
+                if isinstance(t, ast.Name) and t.id in opt:
+                    bad.append(t)
+        n += 1
+        chk.ob('C08.none_default', f'State.{name}', not bad, ctx.loc(fi, bad[0]) if bad else fi.loc,
+               'an optional index / count is recognised as "not given" by `is None` only: index 0 is a player, not an absence',
+               got=f'`{bad[0].id}` is tested by truthiness' if bad else f'optional {opt}')
+    chk.floor('C08.none_default', 20)
 
 
 def _strip_verified(t, verifier):
